@@ -108,14 +108,42 @@ func init() {
 		stubs: []string{"sync.Once / sync.Mutex in generated code replaced by simulator-aware equivalents (scratch copy only)"},
 	}
 	props["C02"] = &propCfg{
-		id: "C02", level: "exploration", design: "DESIGN.md §4 C02", modes: []string{"binding"},
+		id: "C02", level: "exploration", design: "DESIGN.md §4 C02", needTS: true, modes: []string{"binding"},
 		quick: tierCfg{worlds: 10, batchSize: 16, checks: 200, timeoutS: 240},
 		thor:  tierCfg{worlds: 80, batchSize: 40, checks: 1000, timeoutS: 1800},
 		genCfg: func(seed uint64, name string) gen.Config {
-			return gen.Config{Seed: seed, Name: name, Allow: safeAllow(), Force: []string{gen.FPathVars, gen.FQuery, gen.FQueryOnBody}}
+			a := safeAllow()
+			delete(a, gen.FHeaderOverride)
+			return gen.Config{Seed: seed, Name: name, Allow: a, Force: []string{gen.FPathVars, gen.FQuery, gen.FQueryOnBody}, TSSafe: true}
 		},
 		rule: "plans = 1-2 raw contract-client requests on RPCs with path variables and/or query parameters: verb x body {absent, empty, {}, object omitting the URL-bound fields, object with other fields} x codec {JSON, protobuf} x URL values {valid boundary values, unconvertible value on one field, required query parameter left out}, delivered fragmented and delayed; oracle = handler-visible message equals URL-bound fields from the URL + body fields, or 400 naming the field and no dispatch; distinct_nontrivial counts distinct (world, rpc, server, codec, body kind, outcome, field shape) tuples",
 		technique: "deterministic simulation: contract client emitting raw requests over the simulated link, reference binding model as oracle",
+	}
+	props["C03"] = &propCfg{
+		id: "C03", level: "exploration", design: "DESIGN.md §4 C03", modes: []string{"matrix"}, needTS: true,
+		quick: tierCfg{worlds: 8, batchSize: 20, checks: 60, timeoutS: 300},
+		thor:  tierCfg{worlds: 60, batchSize: 30, checks: 300, timeoutS: 1800},
+		genCfg: func(seed uint64, name string) gen.Config {
+			a := safeAllow()
+			delete(a, gen.FHeaderOverride)
+			return gen.Config{Seed: seed, Name: name, Allow: a, Force: []string{gen.FNameShapes}, TSSafe: true}
+		},
+		probes: func() []*spec.World {
+			ws := []*spec.World{
+				probe("pc3def", "no-config", gen.RDefaultPath),
+				probe("pc3defbase", "no-config+base", gen.RDefaultPath, gen.FBasePath),
+				probe("pc3verb", "verb-only", gen.RVerbOnly),
+				probe("pc3verbbase", "verb-only+base", gen.RVerbOnly, gen.FBasePath),
+				probe("pc3noslash", "path-without-leading-slash", gen.RPathNoSlash),
+				probe("pc3noslashbase", "path-without-leading-slash+base", gen.RPathNoSlash, gen.FBasePath),
+				probe("pc3basenoslash", "base-without-leading-slash", gen.RBaseNoSlash, gen.FBasePath),
+			}
+			return ws
+		},
+		rule: "per plan one RPC of a seeded world and one drawn request, sent by three kinds of client (generated Go client, generated TS client, a client that knows only the emitted OpenAPI document) to two servers (generated Go server, generated TS server) over the simulated link; oracle = every pair delivers the request to the handler of that RPC, the three request lines agree (verb, decoded path, query-name set) and match exactly one operation of the documents, TS route descriptors equal the document's (verb, template), the document agrees with the annotations on parameter placement and has exactly one operation per RPC; distinct_nontrivial counts distinct (world, rpc, client>server, path configuration) delivered tuples",
+		technique: "deterministic co-simulation: full client x server delivery matrix (Go, TS, OpenAPI-driven) over the simulated link + document cross-check in the same pass",
+		real:      []string{"protoc-gen-openapiv3 output parsed as a third party would", "generated TS modules in Node 22"},
+		stubs:     []string{"TS application handlers (proxied)", "route matcher of the TS hosting framework"},
 	}
 	props["C08"] = &propCfg{
 		id: "C08", level: "exploration", design: "DESIGN.md §4 C08", modes: []string{"ts-go", "go-ts", "ts-ts"}, needTS: true,
@@ -135,11 +163,11 @@ func init() {
 		stubs:     []string{"TS application handlers (proxied to the Go app node)", "the hosting framework's route matcher (segment-wise template match in the bridge)"},
 	}
 	props["C09"] = &propCfg{
-		id: "C09", level: "exploration", design: "DESIGN.md §4 C09", modes: []string{"headers"},
+		id: "C09", level: "exploration", design: "DESIGN.md §4 C09", needTS: true, modes: []string{"headers"},
 		quick: tierCfg{worlds: 10, batchSize: 16, checks: 200, timeoutS: 240},
 		thor:  tierCfg{worlds: 80, batchSize: 40, checks: 1000, timeoutS: 1800},
 		genCfg: func(seed uint64, name string) gen.Config {
-			return gen.Config{Seed: seed, Name: name, Allow: safeAllow(), Force: []string{gen.FHeadersSvc, gen.FHeadersMeth}}
+			return gen.Config{Seed: seed, Name: name, Allow: safeAllow(), Force: []string{gen.FHeadersSvc, gen.FHeadersMeth}, TSSafe: true}
 		},
 		probes: func() []*spec.World {
 			return []*spec.World{probe("poptoverride", "optional-method-header-overrides-required-service-header", gen.ROptionalOverride, gen.FHeadersSvc, gen.FHeaderOverride)}
@@ -148,11 +176,13 @@ func init() {
 		technique: "deterministic simulation: contract client with raw header sets, delayed instrumented body stream, reference header model as oracle",
 	}
 	props["C10"] = &propCfg{
-		id: "C10", level: "exploration", design: "DESIGN.md §4 C10", modes: []string{"errors"},
+		id: "C10", level: "exploration", design: "DESIGN.md §4 C10", needTS: true, modes: []string{"errors"},
 		quick: tierCfg{worlds: 10, batchSize: 16, checks: 200, timeoutS: 240},
 		thor:  tierCfg{worlds: 80, batchSize: 40, checks: 1000, timeoutS: 1800},
 		genCfg: func(seed uint64, name string) gen.Config {
-			return gen.Config{Seed: seed, Name: name, Allow: safeAllow(), Force: []string{gen.FCustomError, gen.FRules, gen.FNested}}
+			a := safeAllow()
+			delete(a, gen.FHeaderOverride)
+			return gen.Config{Seed: seed, Name: name, Allow: a, Force: []string{gen.FCustomError, gen.FRules, gen.FNested}, TSSafe: true}
 		},
 		rule: "plans = 1-3 calls (generated Go client or raw contract client) each with one error source {missing required header, unconvertible URL value, malformed body, rule violation with nested/repeated paths, plain error, sebuf Error, ValidationError from the handler, custom *Error message, wrapped custom error} x codec {JSON, protobuf} x scripted error hook {none, returns nil, returns message, sets status, sets headers, writes body}; oracle = documented table (status, content type mirrors the request, body decodes to the expected message, hook overrides) and client-side error value; distinct_nontrivial counts distinct (world, source, codec, hook behaviour, client, status) tuples",
 		technique: "deterministic simulation: scripted app-handler and error-hook nodes, Go and contract clients as observers, documented error table as oracle",
